@@ -8,6 +8,11 @@ HOOK_COMMITS = ["204cfe3", "2edc694", "e1d8638"]
 
 # id -> (category, technique, level text, level note, design ref)
 CHECKS = {
+ "C17": ("exploration",
+         "metamorphic runtime oracles on real scores (direct similarity calls on boundary statistics, metamorphic corpora, per-query-type boost ratios, compound = boost x sum of separately searched parts) and an evaluator of every explanation node's stated formula",
+         "Scores produced by the real similarity and searchers are checked for finiteness/positivity and the four monotonicity/linearity laws on boundary statistics and on constructed corpora; every explanation tree returned for generated query trees is re-evaluated node by node from its message templates and compared with the unexplained score. Held on the statistics, corpora and queries explored; eight listed findings (idf message, boost handling of six query types, non-positive fuzzy scores) are reported as KNOWN-FINDING.",
+         "Trusts: float tolerance 1e-9 (widened by eps/x where the implementation's w - w/(1+x) form cancels); the six message templates as the definition of 'the formula stated in the message'.",
+         "DESIGN.md §4 C17"),
  "C16": ("exploration",
          "runtime oracle: every aggregation calculator of real searches compared with direct computation over the reference model's matched documents, across request variants",
          "Generated aggregation trees (metrics, cardinality, quantiles, terms, numeric/date ranges, nested to depth 2, several aggregations per field) on generated corpora and queries are computed by the real collectors under 8 request variants (n from 0 to 1000, from, three sort orders, search-after, all-matches collector) and each calculator is compared with direct counting over the model's match set. Held on the inputs explored.",
